@@ -62,7 +62,10 @@ def judge(c, obs):
             bad.append("%s was accepted" % h)
         for l in sorted(blocking):
             bad.append("lint %s is violated and not allowed (allowed: %s), yet the run was accepted" % (l, sorted(allowed) or "none"))
-        if obs.get("decode_error"):
+        if c.get("dry"):
+            if obs["wrote"]:
+                bad.append("--dry-run wrote a torrent")
+        elif obs.get("decode_error"):
             bad.append("accepted run wrote no decodable torrent: %s" % obs["decode_error"])
         elif obs["recorded"] != pl:
             bad.append("accepted run records piece length %r, given %d" % (obs["recorded"], pl))
@@ -118,9 +121,9 @@ def matrix_values(thorough):
     return sorted(vs)
 
 
-def mk(allow, pl, text, private, announce, kind, inp="file", out="stdout", tier_only=False, short=False):
+def mk(allow, pl, text, private, announce, kind, inp="file", out="stdout", tier_only=False, short=False, dry=False):
     return {"allow": list(allow), "pl": pl, "text": text, "private": private, "announce": announce, "kind": kind,
-            "input": inp, "output": out, "tier_only": tier_only, "short": short}
+            "input": inp, "output": out, "tier_only": tier_only, "short": short, "dry": dry}
 
 
 def gen_cases(ctx):
@@ -145,6 +148,12 @@ def gen_cases(ctx):
         for v in edge:
             for pr, an in combos:
                 cases.append(mk(a, v, str(v), pr, an, "allow-list-order-dup", short=(len(a) % 2 == 0)))
+    # --dry-run changes what is written, not what is allowed (added after seeded change C14-8: the pre-flight checks skipped
+    # under --dry-run)
+    for a in subsets:
+        for v in edge + [1000, 8192]:
+            for pr, an in ((False, False), (True, False)):
+                cases.append(mk(a, v, str(v), pr, an, "dry-run", out="file", dry=True))
     # --announce-tier alone is not --announce
     for a in subsets:
         for v in (1, 16384, 24576):
@@ -212,6 +221,8 @@ def argv_of(c):
         a += ["--announce", ANNOUNCE]
     if c["tier_only"]:
         a += ["--announce-tier", ANNOUNCE]
+    if c.get("dry"):
+        a.append("--dry-run")
     return a
 
 
@@ -324,7 +335,7 @@ def run(ctx):
             case["oracle"] = bad or "property holds on this run"
             if bad:
                 failures.append((len(argv), c["pl"], bad, case))
-            elif " ".join(mm[:4]) != i:
+            elif (" ".join(mm[:3]) != " ".join(i.split(" ")[:3])) if c.get("dry") else (" ".join(mm[:4]) != i):
                 disagreements.append((len(argv), c["pl"], case))
             for n, want in enumerate(SAMPLE_PICKS):
                 if n not in picked and all(c[k] == v for k, v in want.items()):
@@ -415,7 +426,7 @@ def replay(ctx, path):
         if "model_request" in case:
             print("model :", ctx.model([case["model_request"]])[0])
             c = {"allow": [CODES[x] for x in case["allow"]], "pl": case["piece_length"], "private": case["private"],
-                 "announce": case["announce"]}
+                 "announce": case["announce"], "dry": "--dry-run" in case["argv"]}
             print("oracle:", judge(c, o) or "property holds on this run")
         print("shell :", case.get("reproduce"))
     finally:
